@@ -105,6 +105,16 @@ def all_resources(p):
     return p.sources + sorted(p.generated)
 
 
+def next_roots(rng, n, prev):
+    """roots of the next session: often the same as (or a superset/subset of) the previous session's roots, so that
+    what an earlier session left behind for these very tasks is met again"""
+    r = rng.random()
+    if prev and r < 0.40: return list(prev)
+    if prev and r < 0.55: return list(prev) + [rng.randint(1, n)]
+    if prev and r < 0.65: return [rng.choice(prev)]
+    return [rng.randint(1, n) for _ in range(rng.randint(1, 3))]
+
+
 def ext_changes(rng, p, k=None, values=range(0, 6)):
     """a batch of external changes; returns (lines, changed resource ids)"""
     res = all_resources(p)
@@ -125,8 +135,9 @@ def history_td(rng, p, nsessions=None):
     from-scratch reference build of the same roots."""
     lines = [f"set {s} {rng.randint(0, 5)}" for s in p.sources if rng.random() < 0.85]
     n = len(p.tasks)
+    roots = None
     for _ in range(nsessions or rng.randint(2, 5)):
-        roots = [rng.randint(1, n) for _ in range(rng.randint(1, 3))]
+        roots = next_roots(rng, n, roots)
         lines.append("session")
         lines += [f"req {t}" for t in roots]
         if rng.random() < 0.3:
@@ -243,16 +254,18 @@ def history_mixed(rng, p, sessions=None, clean="clean", report_all=True, cleanno
     lines = [f"set {s} {rng.randint(0, 3)}" for s in p.sources]
     n = len(p.tasks)
     changed = []
+    roots = None
     for _ in range(sessions or rng.randint(2, 5)):
         lines.append("session")
         if changed and rng.random() < bu_prob:
             lines.append("bu " + " ".join(map(str, changed)))
-        roots = [rng.randint(1, n) for _ in range(rng.randint(1, 3))]
+        roots = next_roots(rng, n, roots)
         lines += [f"req {t}" for t in roots]
         lines.append("endsession")
         lines.append(clean if clean != "clean" else "clean " + " ".join(map(str, roots)))
         if cleannodes: lines.append("cleannodes")
-        ch, changed = ext_changes(rng, p, k=rng.randint(1, 3), values=range(0, 4))
+        # history shaping: sometimes nothing changes between two sessions (idempotence, leftovers of an abort show)
+        ch, changed = ext_changes(rng, p, k=(0 if rng.random() < 0.25 else rng.randint(1, 3)), values=range(0, 4))
         lines += ch
     return lines
 
@@ -362,6 +375,47 @@ def case_panic_only(rng, exact=False, bu_prob=0.4):
     p.tasks[t] = inject(rng, p.tasks[t], lambda nv, rest: ("panic",), guard if rng.random() < 0.85 else None,
                         gchk=p.rchk.setdefault((t, guard[0]), 0))
     return p.lines() + history_mixed(rng, p, sessions=rng.randint(3, 6), cleannodes=True, bu_prob=bu_prob), dict(injected=f"panic in task {t} guard {guard}")
+
+
+def case_panic_recover(rng, exact=False, bu_prob=0.3):
+    """abort, repair, rebuild, rebuild again with nothing changed: a guarded panic (the guard is a source the task has
+    already read when it panics); the guard is set to the trigger value, a session requires the task (or a task above
+    it), the guard is repaired (and other sources the aborted tasks may have read are changed or changed back), the
+    same roots are required again, and once more with nothing changed; then the history goes on at random."""
+    p = gen_program(rng, exact=exact)
+    n = len(p.tasks)
+    t = rng.choice(sorted(p.tasks))
+    gsrc, gval = rng.choice(p.sources), rng.randint(0, 3)
+    p.tasks[t] = inject(rng, p.tasks[t], lambda nv, rest: ("panic",), (gsrc, gval), gchk=p.rchk.setdefault((t, gsrc), 0))
+    lines = [f"set {s} {rng.randint(0, 3)}" for s in p.sources]
+
+    def sess(roots, bu=None):
+        out = ["session"] + ([f"bu {' '.join(map(str, bu))}"] if bu else []) + [f"req {x}" for x in roots] + ["endsession",
+               "clean " + " ".join(map(str, roots)), "cleannodes"]
+        return out
+    roots = sorted(set([rng.randint(1, t)] + ([t] if rng.random() < 0.5 else [])))
+    if rng.random() < 0.5:                       # a good build first
+        lines += [f"set {gsrc} {(gval + 1) % 4}"] + sess(roots)
+    lines += [f"set {gsrc} {gval}"]
+    others = [s for s in p.sources if s != gsrc]
+    if others and rng.random() < 0.5: lines.append(f"set {rng.choice(others)} {rng.randint(0, 3)}")
+    lines += sess(roots)                          # aborts if the guard is reached
+    lines += [f"set {gsrc} {rng.choice([v for v in range(4) if v != gval])}"]
+    ch = []
+    if others and rng.random() < 0.6:
+        ch = [rng.choice(others)]
+        lines.append(f"set {ch[0]} {rng.randint(0, 3)}")
+    lines += sess(roots, bu=([gsrc] + ch if rng.random() < bu_prob else None))   # repaired
+    lines += sess(roots)                          # nothing changed
+    if ch and rng.random() < 0.5:
+        lines.append(f"set {ch[0]} {rng.randint(0, 3)}")   # maybe back to what the aborted run saw
+        lines += sess(roots)
+    for _ in range(rng.randint(0, 2)):
+        c, changed = ext_changes(rng, p, k=rng.randint(0, 2), values=range(0, 4))
+        lines += c
+        roots = next_roots(rng, n, roots)
+        lines += sess(roots, bu=(changed if changed and rng.random() < bu_prob else None))
+    return p.lines() + lines, dict(injected=f"panic in task {t} guard {(gsrc, gval)}", shape="abort-repair-rebuild-rebuild")
 
 
 def case_panic(rng):
